@@ -52,8 +52,9 @@ class ACtx(Abstract):
 START, END, ASOF, PASSWORD = Marker("dt-start"), Marker("dt-end"), Marker("dt-asof"), Marker("password")
 
 
-def install(it):
-    it.models[G.convert_datetime] = lambda it_, a, k: {"start": START, "end": END, "asof": ASOF}
+def install(it, dates=None):
+    st, en, asof = dates or (START, END, ASOF)
+    it.models[G.convert_datetime] = lambda it_, a, k: {"start": st, "end": en, "asof": asof}
     it.models[G.get_passwd] = lambda it_, a, k: PASSWORD
 
     def m_init_client(it_, a, k):
@@ -66,9 +67,19 @@ def install(it):
 
 def call_cmd(name):
     def call(it, fn, a):
-        install(it)
+        install(it, dates=(a[1], a[2], a[3]))
         return it.call(getattr(G, name), [a[0]], {})
     return call
+
+
+class DateArg(Arg):
+    """a date option as convert_datetime hands it over: the date given, or None when the option was not given"""
+
+    def __init__(self, name, marker):
+        self.name = name; self.marker = marker
+
+    def make(self, it):
+        return SIte(z3.Bool(f"{self.name}_not_given"), None, self.marker), []
 
 
 class EnvArg(Arg):
@@ -82,12 +93,12 @@ class EnvArg(Arg):
 LENGTH_PATTERNS = [(2, 1, 0, 1, 2, 1), (0, 0, 0, 0, 0, 0), (1, 0, 0, 0, 0, 0), (0, 0, 0, 0, 1, 0), (0, 0, 0, 0, 0, 2), (0, 2, 2, 0, 0, 0), (1, 1, 1, 1, 1, 1), (3, 0, 0, 0, 3, 0)]
 CONTRACTS = []
 for pat in LENGTH_PATTERNS:
-    common = [ArgsArg(pat), EnvArg("START", START), EnvArg("END", END), EnvArg("ASOF", ASOF), EnvArg("PASSWORD", PASSWORD)]
+    common = [ArgsArg(pat), DateArg("START", START), DateArg("END", END), DateArg("ASOF", ASOF), EnvArg("PASSWORD", PASSWORD)]
     CONTRACTS.append(Contract("ofxtools.scripts.ofxget:request_stmt", args=common, call=call_cmd("request_stmt"),
                               ensures=[("one-call", "len(spec.client.calls(ghost, 'request_statements')) == 1"),
                                        ("exactly-one-request-per-configured-account", "spec.ofxget.same_requests(spec.client.calls(ghost, 'request_statements')[0][2], spec.ofxget.expected_stmt_requests(args, START, END, ASOF))"),
                                        ("password-and-switches", "spec.client.calls(ghost, 'request_statements')[0][1] is PASSWORD and spec.client.calls(ghost, 'request_statements')[0][3]['dryrun'] is args['dryrun'] and spec.client.calls(ghost, 'request_statements')[0][3]['skip_profile'] is args['skipprofile']")],
-                              notes=f"account lists of lengths {dict(zip(TYPES, pat))}, account numbers and flags symbolic", props=["C19"], symbolic_only=True))
+                              notes=f"account lists of lengths {dict(zip(TYPES, pat))}, account numbers and flags symbolic, each of the three dates given or not given", props=["C19"], symbolic_only=True))
     CONTRACTS.append(Contract("ofxtools.scripts.ofxget:request_stmtend", args=common, call=call_cmd("request_stmtend"),
                               ensures=[("one-call", "len(spec.client.calls(ghost, 'request_statements')) == 1"),
                                        ("exactly-one-request-per-configured-account", "spec.ofxget.same_requests(spec.client.calls(ghost, 'request_statements')[0][2], spec.ofxget.expected_stmtend_requests(args, START, END))")],
